@@ -8,6 +8,13 @@ require (
 )
 
 require (
+	filippo.io/edwards25519 v1.1.0 // indirect
+	github.com/dlclark/regexp2 v1.11.5 // indirect
+	github.com/go-sql-driver/mysql v1.9.3 // indirect
+	github.com/ncruces/go-strftime v1.0.0 // indirect
+)
+
+require (
 	github.com/php-any/origami v0.0.0
 	golang.org/x/mod v0.41.0 // indirect
 	golang.org/x/sync v0.23.0 // indirect
